@@ -45,7 +45,7 @@ def check(run):
         longc[e] = c
     longv = vlib.accept_filter(run, exe, longc, name="long")
     jobs = []
-    nv, nr, npad = (60, 40, 12) if quick else (1200, 600, 60)
+    nv, nr, npad = (60, 40, 12) if quick else (2500, 1200, 60)
     for e in ECOS:
         accset = set(acc[e])
         rej = [t for t, _ in U[e] if t not in accset]
